@@ -127,3 +127,7 @@ func resetEngineHooks() {
 	faiss.Hook = nil
 	faiss.ResetCounters()
 }
+
+func setEngineHook(h func(op string, n int) error) { faiss.Hook = h }
+
+func setEngineQuiet(q bool) { faiss.Quiet = q }
